@@ -1,8 +1,32 @@
 package c05
 
-import (
-	"github.com/go-text/typesetting/harfbuzz"
+// Triage of disagreements with the reference (DESIGN §1.7). Every class here was re-found by this
+// check on the pinned tree, minimised, and decided by reading the port, the behaviour of the live
+// reference, and the upstream material shipped in the corpus module. Three kinds:
+//
+//   finding   genuine port defect, listed in known_findings.json under the id; the exclusion is
+//             active only while ev.Known(id) (status "open") — once the fix is applied and the entry
+//             is "fixed" the cases are checked strictly again.
+//   skew      libharfbuzz 6.0.0 differs from the upstream version the port tracks (evidence in the
+//             comment); excluded by the stated structural precondition, counted.
+//   loader    the two font loaders accept different things; excluded by precondition, counted.
+//
+// A matcher always has two parts: a structural precondition on the *input* (font, text, options)
+// and the weakest comparison that still has to hold (e.g. "equal except offsets"), so that any
+// other difference on the same input is still reported.
 
+import (
+	"strings"
+	"unicode"
+
+	"github.com/go-text/typesetting/font"
+	ot "github.com/go-text/typesetting/font/opentype"
+	"github.com/go-text/typesetting/harfbuzz"
+	"github.com/go-text/typesetting/language"
+	ucd "github.com/go-text/typesetting/unicodedata"
+
+	"verif/internal/corpus"
+	"verif/internal/ev"
 	"verif/internal/hbref"
 )
 
@@ -13,14 +37,380 @@ type class struct {
 	excluded bool
 }
 
-func knownPanic(fe *fontEntry, c *Case, err error) string { return "" }
+// finding ids (proposed entries of known_findings.json)
+const (
+	fPanicPositions   = "C05-panic-positions-out-of-step"
+	fReverseGraphemes = "C05-reverse-graphemes-cluster-level"
+	fVOrigin          = "C05-vorigin-variable-no-vmtx"
+	fCmapZero         = "C05-cmap-glyph-zero-found"
+	fEmptyExtents     = "C05-empty-glyph-extents"
+	fPairPos2         = "C05-pairpos2-class-count"
+	fFeatureVars      = "C05-feature-variations-drop-features"
+	fArabicMCM        = "C05-arabic-mcm-below-class"
+	fExtentsOther     = "C05-glyph-extents-other"
+	fVarRounding      = "C05-variable-metrics-rounding"
+)
+
+// unconditional (skew / loader / unspecified) classes
+const (
+	sArabicFallback = "skew:arabic-fallback-synthesis"
+	sUseUnassigned  = "skew:use-unassigned-is-word-joiner"
+	sOpBudget       = "unspecified:operation-budget-exhausted"
+	lBitmapOnly     = "loader:bitmap-only-extents"
+)
+
+// ---- font-level facts used by the matchers (computed once per font) ----
+
+type fontFacts struct {
+	done            bool
+	layoutDropped   bool // the port's GSUB/GPOS lookup count differs from the reference's
+	cmapZeroFound   bool // the port's cmap reports glyph 0 as a found mapping for some probed rune
+	noArabicGSUB    bool // GSUB has none of the Arabic positional features
+	arabicMarkLig   bool // the fallback mark-ligature lookup of the port would be non-empty
+	mapsNUL         bool // U+0000 is mapped to a glyph
+	hasOutlines     bool // glyf, CFF or CFF2
+	hasVORG         bool
+	featureVarTable bool
+}
+
+var factsCache = map[*fontEntry]*fontFacts{}
+
+var cmapProbe = []rune{0x20, 0xA0, 0x25CC, 0x2010, 0x2011, 0x2D, 0x41, 0x61, 0x30, 0x0, 0x9, 0xA, 0xD, 0x200B, 0x200C, 0x200D, 0x2028, 0x2029, 0xFFFD}
+
+func facts(fe *fontEntry) *fontFacts {
+	if f, ok := factsCache[fe]; ok {
+		return f
+	}
+	f := &fontFacts{done: true}
+	factsCache[fe] = f
+	f.layoutDropped = len(fe.face.GSUB.Lookups) != fe.hb.LookupCount(tag32("GSUB")) || len(fe.face.GPOS.Lookups) != fe.hb.LookupCount(tag32("GPOS"))
+	for _, r := range append(append([]rune(nil), cmapProbe...), fe.pool...) {
+		if g, ok := fe.face.NominalGlyph(r); ok && g == 0 {
+			f.cmapZeroFound = true
+			break
+		}
+	}
+	f.noArabicGSUB = true
+	for _, t := range fe.feats {
+		switch t {
+		case "init", "medi", "fina", "isol", "med2", "fin2", "fin3":
+			f.noArabicGSUB = false
+		}
+	}
+	has := func(r rune) bool { _, ok := fe.face.NominalGlyph(r); return ok }
+	// the port's arabicLigatureMarkTable: SHADDA + {FATHATAN, DAMMATAN, FATHA, DAMMA, KASRA}
+	for _, e := range [][2]rune{{0x064B, 0xF2EE}, {0x064C, 0xFC5E}, {0x064E, 0xFC60}, {0x064F, 0xFC61}, {0x0650, 0xFC62}} {
+		if has(0x0651) && has(e[0]) && has(e[1]) {
+			f.arabicMarkLig = true
+		}
+	}
+	f.mapsNUL = has(0)
+	f.hasOutlines = fe.traits.Glyf || fe.traits.CFF || fe.traits.CFF2
+	if lds, err := corpus.Loaders(fe.rel); err == nil && fe.index < len(lds) {
+		f.hasVORG = lds[fe.index].HasTable(ot.MustNewTag("VORG"))
+	}
+	f.featureVarTable = len(fe.face.GSUB.FeatureVariations) > 0 || len(fe.face.GPOS.FeatureVariations) > 0
+	return f
+}
+
+// ---- small comparison helpers ----
+
+type fieldMask int
+
+const (
+	fID fieldMask = 1 << iota
+	fCluster
+	fAdvance
+	fOffset
+)
+
+// sameOn compares the listed fields only.
+func sameOn(a, b []G, m fieldMask) bool {
+	if len(a) != len(b) {
+		return false
+	}
+	for i := range a {
+		x, y := a[i], b[i]
+		if m&fID != 0 && x.ID != y.ID || m&fCluster != 0 && x.Cluster != y.Cluster ||
+			m&fAdvance != 0 && (x.XAdv != y.XAdv || x.YAdv != y.YAdv) || m&fOffset != 0 && (x.XOff != y.XOff || x.YOff != y.YOff) {
+			return false
+		}
+	}
+	return true
+}
+
+func abs32(v int32) int32 {
+	if v < 0 {
+		return -v
+	}
+	return v
+}
+
+// offsetsWithin: equal ids, clusters and advances; offsets differ by at most tol units.
+func offsetsWithin(a, b []G, tol int32) bool {
+	if !sameOn(a, b, fID|fCluster|fAdvance) {
+		return false
+	}
+	for i := range a {
+		if abs32(a[i].XOff-b[i].XOff) > tol || abs32(a[i].YOff-b[i].YOff) > tol {
+			return false
+		}
+	}
+	return true
+}
+
+func isAssigned(r rune) bool {
+	for _, t := range unicode.Categories {
+		if unicode.Is(t, r) {
+			return true
+		}
+	}
+	return false
+}
+
+// rtlScripts: the scripts whose horizontal direction is right-to-left (harfbuzz.go
+// getHorizontalDirection / hb_script_get_horizontal_direction).
+var rtlScripts = map[language.Script]bool{
+	language.Arabic: true, language.Hebrew: true, language.Syriac: true, language.Thaana: true, language.Cypriot: true, language.Kharoshthi: true,
+	language.Phoenician: true, language.Nko: true, language.Lydian: true, language.Avestan: true, language.Imperial_Aramaic: true,
+	language.Inscriptional_Pahlavi: true, language.Inscriptional_Parthian: true, language.Old_South_Arabian: true, language.Old_Turkic: true,
+	language.Samaritan: true, language.Mandaic: true, language.Meroitic_Cursive: true, language.Meroitic_Hieroglyphs: true, language.Manichaean: true,
+	language.Mende_Kikakui: true, language.Nabataean: true, language.Old_North_Arabian: true, language.Palmyrene: true, language.Psalter_Pahlavi: true,
+	language.Hatran: true, language.Adlam: true, language.Hanifi_Rohingya: true, language.Old_Sogdian: true, language.Sogdian: true,
+	language.Elymaic: true, language.Chorasmian: true, language.Yezidi: true,
+}
+
+var bidiNeutralHorizontal = map[language.Script]bool{language.Old_Hungarian: true, language.Old_Italic: true, language.Runic: true, language.Tifinagh: true}
+
+// graphemesReversed: ensureNativeDirection reverses the buffer by grapheme for this
+// (script, direction).
+func graphemesReversed(script language.Script, dir harfbuzz.Direction) bool {
+	switch dir {
+	case harfbuzz.LeftToRight:
+		return rtlScripts[script]
+	case harfbuzz.RightToLeft:
+		return !rtlScripts[script] && !bidiNeutralHorizontal[script]
+	case harfbuzz.BottomToTop:
+		return true
+	}
+	return false
+}
+
+var mcmBelow = map[rune]bool{0x0655: true, 0x06E3: true, 0x08CF: true, 0x08D3: true}
+
+func coordsSet(got portResult) bool { return got.font != nil && len(got.font.Face().Coords()) != 0 }
+
+// extentsDiffer reports the glyphs of the two outputs for which GlyphExtents differs between the
+// port (at the case's coordinates) and the reference (whose font currently carries the same
+// variations), classified.
+type extentsDiff struct {
+	any, emptyGlyph, refNone, portNone, within1 bool
+}
+
+func extentsDiffer(fe *fontEntry, c *Case, got portResult, gs ...[]G) extentsDiff {
+	var d extentsDiff
+	d.within1 = true
+	setRefVars(fe, c)
+	seen := map[uint32]bool{}
+	for _, l := range gs {
+		for _, g := range l {
+			if seen[g.ID] {
+				continue
+			}
+			seen[g.ID] = true
+			pe, pok := got.font.GlyphExtents(harfbuzzGID(g.ID))
+			re, rok := fe.hb.GlyphExtents(g.ID)
+			if pok == rok && pe.XBearing == re.XBearing && pe.YBearing == re.YBearing && pe.Width == re.Width && pe.Height == re.Height {
+				continue
+			}
+			d.any = true
+			switch {
+			case pok && !rok:
+				d.refNone = true
+				d.within1 = false
+			case !pok && rok:
+				d.portNone = true
+				d.within1 = false
+			case pok && rok && re == (hbref.Extents{}) && pe.Width == 0 && pe.Height == 0 && pe.YBearing == 0:
+				d.emptyGlyph = true
+				d.within1 = false
+			default:
+				if abs32(pe.XBearing-re.XBearing) > 1 || abs32(pe.YBearing-re.YBearing) > 1 || abs32(pe.Width-re.Width) > 1 || abs32(pe.Height-re.Height) > 1 {
+					d.within1 = false
+				}
+			}
+		}
+	}
+	return d
+}
+
+// ---- the matchers ----
+
+func knownPanic(fe *fontEntry, c *Case, err error) string {
+	pe, ok := err.(*panicError)
+	if !ok {
+		return ""
+	}
+	// finding: Buffer.Pos is not kept in step with Buffer.Info before positioning (upstream's
+	// have_positions is not ported); reverseRange / deleteGlyphsInplace index Pos with Info's
+	// length after glyphs were inserted (dotted circle + non-native direction, morx insertions).
+	// Identity of the finding: the panic site.
+	if strings.Contains(pe.val, "slice bounds out of range") && len(pe.stack) > 0 &&
+		(strings.HasSuffix(pe.stack[0], "reverseRange") || strings.HasSuffix(pe.stack[0], "deleteGlyphsInplace")) && ev.Known(fPanicPositions) {
+		return fPanicPositions
+	}
+	return ""
+}
 
 func triageGuess(fe *fontEntry, c *Case, got portResult, want refResult) string { return "" }
 
-func triage(fe *fontEntry, c *Case, port, ref []G) class { return class{} }
+// fontLevel: classes where the whole shaping input differs between the two sides because of the
+// loader; nothing of the output can be compared.
+func fontLevel(fe *fontEntry, got portResult) class {
+	f := facts(fe)
+	switch {
+	case f.layoutDropped && ev.Known(fPairPos2):
+		// finding: PairPos format 2 is rejected when classDef.Extent() != class1Count although an
+		// unused trailing class is legal; the error discards the *whole* GPOS table
+		// (Amiri-Regular: 75 lookups in the reference, 0 in the port).
+		return class{fPairPos2, true}
+	case f.cmapZeroFound && ev.Known(fCmapZero):
+		// finding: cmap formats 0, 4 (delta), 6, 10, 12, 13 report a mapping to glyph 0 as found;
+		// upstream treats glyph 0 as "not mapped" in every format (the font "has" a space glyph 0,
+		// default ignorables are kept as glyph 0, ...).
+		return class{fCmapZero, true}
+	}
+	if f.featureVarTable && got.font != nil && ev.Known(fFeatureVars) {
+		// finding: when a FeatureVariations record matches the coordinates, every feature *not*
+		// substituted by that record loses all its lookups (getFeatureLookupsWithVar returns nil
+		// instead of the default feature).
+		coords := got.font.Face().Coords()
+		if fe.face.GSUB.FindVariationIndex(coords) != -1 || fe.face.GPOS.FindVariationIndex(coords) != -1 {
+			return class{fFeatureVars, true}
+		}
+	}
+	return class{}
+}
+
+func triage(fe *fontEntry, c *Case, got portResult, want refResult) class {
+	port, ref := got.Glyphs, want.Glyphs
+	f := facts(fe)
+	if cl := fontLevel(fe, got); cl.id != "" {
+		return cl
+	}
+	// unspecified: a runaway (AAT insertion loop, recursive lookups) stops when the operation /
+	// length budget is exhausted; where exactly is not specified (upstream expects "*" for such
+	// inputs, e.g. MORX-34).
+	if len(port) >= 16384 || len(ref) >= 16384 {
+		return class{sOpBudget, true}
+	}
+	// skew: Arabic fallback shaping synthesised from the cmap (script Arab, no Arabic GSUB
+	// features). The port has three ligature lookups (3-component, 2-component, SHADDA mark
+	// ligatures: arabicLigatureMarkTable, generated by the corpus module's port of
+	// gen-arabic-table.py); libharfbuzz 6.0.0 has no mark-ligature lookup, and it builds bogus
+	// one-component ligatures from the zero padding of its table when the font maps U+0000.
+	if got.Script == language.Arabic && f.noArabicGSUB && (f.arabicMarkLig || f.mapsNUL) {
+		return class{sArabicFallback, true}
+	}
+	// finding: reverseGraphemes merges clusters for cluster level 0 instead of level 1
+	// (upstream: cluster_level == MONOTONE_CHARACTERS): non-monotone clusters at level 1.
+	if c.Cluster == 1 && graphemesReversed(got.Script, got.Dir) && sameOn(port, ref, fID|fAdvance|fOffset) && ev.Known(fReverseGraphemes) {
+		return class{fReverseGraphemes, true}
+	}
+	// skew: the port's USE table (generated from the corpus module's port of gen-use-table.py:
+	// "|| UGC == Cn") classes unassigned code points as WJ, which never starts a cluster, so a
+	// following mark forms a broken cluster and gets a dotted circle; libharfbuzz 6.0.0 classes
+	// them O. Weaker predicate: equal glyph ids once dotted circles are removed.
+	if dc, ok := fe.face.NominalGlyph(0x25CC); ok {
+		hasCn := false
+		for _, r := range c.item() {
+			if !isAssigned(r) {
+				hasCn = true
+			}
+		}
+		if hasCn {
+			strip := func(gs []G) []uint32 {
+				var out []uint32
+				for _, g := range gs {
+					if g.ID != uint32(dc) {
+						out = append(out, g.ID)
+					}
+				}
+				return out
+			}
+			a, b := strip(port), strip(ref)
+			same := len(a) == len(b) && len(port) != len(ref)
+			for i := 0; same && i < len(a); i++ {
+				same = a[i] == b[i]
+			}
+			if same {
+				return class{sUseUnassigned, true}
+			}
+		}
+	}
+	// finding: Arabic "modifier combining marks" of class 220 are renumbered to the class of
+	// the 230 ones (typo mcc26 for mcc22): fallback positioning puts them above.
+	for _, r := range c.item() {
+		if mcmBelow[r] && sameOn(port, ref, fID|fCluster|fAdvance) && ev.Known(fArabicMCM) {
+			return class{fArabicMCM, true}
+		}
+	}
+	vertical := got.Dir == harfbuzz.TopToBottom || got.Dir == harfbuzz.BottomToTop
+	// finding: vertical origin of a variable glyf font without vmtx/VORG: upstream derives the top
+	// side bearing from the phantom points as soon as coordinates are set; the port only when vmtx
+	// exists (y origin differs by hundreds of units).
+	if vertical && coordsSet(got) && fe.traits.Glyf && !fe.traits.Vertical && !f.hasVORG && sameOn(port, ref, fID|fCluster|fAdvance) && ev.Known(fVOrigin) {
+		return class{fVOrigin, true}
+	}
+	// root cause "the font functions disagree on the extents of a glyph of the output": fallback
+	// mark positioning is computed from the extents.
+	if got.font != nil && sameOn(port, ref, fID|fCluster) {
+		d := extentsDiffer(fe, c, got, port, ref)
+		resetRef(fe)
+		switch {
+		case !d.any:
+		case d.refNone && !f.hasOutlines:
+			// loader: the port reads extents from monochrome bitmap strikes (EBDT/bdat, ppem 0);
+			// the reference's ot font functions have no extents for a bitmap-only font.
+			return class{lBitmapOnly, true}
+		case d.emptyGlyph && ev.Known(fEmptyExtents):
+			// finding: an empty glyf glyph gets XBearing = lsb instead of zero extents.
+			return class{fEmptyExtents, true}
+		case d.within1 && coordsSet(got) && offsetsWithin(port, ref, 2) && ev.Known(fVarRounding):
+			return class{fVarRounding, true}
+		case (d.portNone || !d.within1) && !d.emptyGlyph && ev.Known(fExtentsOther):
+			// finding (owned by C10): no extents for CFF2 variable glyphs, zero extents for one
+			// TrueType glyph, ...
+			return class{fExtentsOther, true}
+		}
+	}
+	// finding: rounding of variable-font metrics (vertical origin x = advance/2 computed on the
+	// unrounded advance, y from truncated extents; extents width/height rounded separately): the
+	// port follows an older upstream convention pinned by its own ported unit tests
+	// (TestAdvanceTtVarCompV expects 291/1012 where libharfbuzz 6.0.0 gives 292/1013).
+	if coordsSet(got) && fe.traits.Glyf && offsetsWithin(port, ref, 2) && ev.Known(fVarRounding) {
+		return class{fVarRounding, true}
+	}
+	return class{}
+}
 
 func triageAdvance(fe *fontEntry, c *Case, gid uint32, port, ref int32) string { return "" }
 
 func triageExtents(fe *fontEntry, c *Case, gid uint32, pe harfbuzz.GlyphExtents, pok bool, re hbref.Extents, rok bool) string {
+	f := facts(fe)
+	within1 := pok && rok && abs32(pe.XBearing-re.XBearing) <= 1 && abs32(pe.YBearing-re.YBearing) <= 1 && abs32(pe.Width-re.Width) <= 1 && abs32(pe.Height-re.Height) <= 1
+	switch {
+	case pok && !rok && !f.hasOutlines:
+		return lBitmapOnly
+	case pok && rok && re == (hbref.Extents{}) && pe.Width == 0 && pe.Height == 0 && pe.YBearing == 0 && ev.Known(fEmptyExtents):
+		return fEmptyExtents
+	case within1 && ev.Known(fVarRounding):
+		return fVarRounding
+	case !within1 && ev.Known(fExtentsOther):
+		return fExtentsOther
+	}
 	return ""
 }
+
+var _ = font.NewFace
+var _ = ucd.LookupCombiningClass
